@@ -2225,6 +2225,9 @@ func (self *Aof) GetAofLockExpriedTime(lockCommand *protocol.LockCommand, lock *
 	}
 	if lockCommand.ExpriedFlag&protocol.EXPRIED_FLAG_MINUTE_TIME != 0 {
 		expriedTimeSeconds := lock.expriedTime - int64(aofLock.CommandTime)
+		if expriedTimeSeconds >= 0xffff*60 {
+			return 0xffff
+		}
 		if expriedTimeSeconds >= 60 && expriedTimeSeconds%60 == 0 {
 			return uint16(expriedTimeSeconds / 60)
 		}
@@ -2235,6 +2238,9 @@ func (self *Aof) GetAofLockExpriedTime(lockCommand *protocol.LockCommand, lock *
 	}
 	if lock.expriedTime > 0 {
 		expriedTimeSeconds := lock.expriedTime - int64(aofLock.CommandTime)
+		if expriedTimeSeconds > 0xffff {
+			return 0xffff
+		}
 		if expriedTimeSeconds > 0 {
 			return uint16(expriedTimeSeconds)
 		}
